@@ -14,7 +14,29 @@ import (
 
 var kinds = []string{"START", "STMT", "END", "PREPARE", "COMMIT", "ROLLBACK"}
 
+// longXid: transaction ids as a coordinator on an IPv6 / long host name hands them out, and ids
+// up to 200 bytes (the identifier is xid + "-" + branch id: the branch id sits at the tail)
+func longXid(r *hutil.Rng) string {
+	switch r.Intn(3) {
+	case 0:
+		return fmt.Sprintf("[fe80::%x:%x:%x:%x%%eth0]:8091:%d", r.Intn(65536), r.Intn(65536), r.Intn(65536), r.Intn(65536),
+			1000000000000000000+r.Next()%8000000000000000000)
+	case 1:
+		return fmt.Sprintf("[2001:db8:85a3:%x:%x:8a2e:370:%x]:8091:%d", r.Intn(65536), r.Intn(65536), r.Intn(65536),
+			1000000000000000000+r.Next()%8000000000000000000)
+	}
+	n := 40 + r.Intn(161)
+	b := make([]byte, n)
+	for i := range b {
+		b[i] = "abcdefghijklmnopqrstuvwxyz0123456789.:-"[r.Intn(39)]
+	}
+	return string(b)
+}
+
 func genXid(r *hutil.Rng, hostile bool) string {
+	if r.Chance(1, 5) {
+		return longXid(r)
+	}
 	switch r.Intn(8) {
 	case 0:
 		return "a-" + strconv.Itoa(r.Intn(30))
@@ -237,7 +259,7 @@ func enumReuse() []Scenario {
 		refuse int
 		slow   bool
 	}
-	firsts := []first{{f: []Fault{{Kind: "STMT", Nth: 0}}}, {f: []Fault{{Kind: "END", Nth: 0}}}, {f: []Fault{{Kind: "PREPARE", Nth: 0}}},
+	firsts := []first{{} /* the first branch PREPAREs: through the pool the second statement is refused */, {f: []Fault{{Kind: "STMT", Nth: 0}}}, {f: []Fault{{Kind: "END", Nth: 0}}}, {f: []Fault{{Kind: "PREPARE", Nth: 0}}},
 		{f: []Fault{{Kind: "START", Nth: 0}}}, {refuse: 1}, {slow: true}, {f: []Fault{{Kind: "STMT", Nth: 0}, {Kind: "END", Nth: 0}}},
 		{f: []Fault{{Kind: "STMT", Nth: 0}, {Kind: "ROLLBACK", Nth: 0}}}}
 	seconds := [][]Fault{nil, {{Kind: "STMT", Nth: 1}}, {{Kind: "PREPARE", Nth: 0}}, {{Kind: "START", Nth: 1}}}
@@ -311,6 +333,23 @@ func enumPool() []Scenario {
 	return out
 }
 
+// several branches of ONE global transaction whose xid is long (IPv6 coordinator address),
+// each finished by its own phase two: enumerated
+func enumLongXid() []Scenario {
+	var out []Scenario
+	x := []string{"[fe80::1ff:fe23:4567:890a%eth0]:8091:2612345678901234567", "[2001:db8:85a3::8a2e:370:7334]:8091:2612345678901234568"}
+	for _, ver := range []string{"5.7.30", "8.0.30"} {
+		for _, order := range [][]Op{
+			{{K: "p2", Target: 1, Commit: true}, {K: "p2", Target: 0, Commit: true}, {K: "p2", Target: 2, Commit: false}},
+			{{K: "p2", Target: 0, Commit: false}, {K: "p2", Target: 2, Commit: true, Stranger: true}, {K: "p2", Target: 1, Commit: true}}} {
+			out = append(out, Scenario{Version: ver, Xids: x, Branches: []int64{2612345678901234570, 2612345678901234571, 2612345678901234572},
+				Refuse: []int{0, 0, 0}, Stream: "clean",
+				Ops: append([]Op{{K: "auto", G: 0}, {K: "auto", G: 0}, {K: "auto", G: 1}}, order...)})
+		}
+	}
+	return out
+}
+
 func findingScenarios(r *hutil.Rng) []Scenario {
 	var out []Scenario
 	x := genXid(r, false)
@@ -337,6 +376,12 @@ func identCase(xid []byte, b uint64) IdentCase {
 	y := seatasql.XaIdBuildWithByte(x.GetGlobalTransactionId(), x.GetBranchQualifier())
 	c.DecXid = hex.EncodeToString([]byte(y.GetGlobalXid()))
 	c.DecB = y.GetBranchId()
+	// the identifier is a function of (xid, branch id) that tells branches apart
+	for _, b2 := range []uint64{b + 1, b ^ 1, b / 10} {
+		if b2 != b && seatasql.XaIdBuild(string(xid), b2).String() == x.String() {
+			c.Oracle = fmt.Sprintf("branch ids %d and %d of one xid share the identifier", b, b2)
+		}
+	}
 	if y.GetGlobalXid() != string(xid) || y.GetBranchId() != b {
 		c.Oracle = "decode(encode(xid, branch)) differs from (xid, branch)"
 	}
@@ -357,7 +402,9 @@ func genIdent(r *hutil.Rng, n int) []IdentCase {
 	}
 	for i := 0; i < n; i++ {
 		var xid []byte
-		switch r.Intn(4) {
+		switch r.Intn(5) {
+		case 4:
+			xid = []byte(longXid(r))
 		case 0:
 			xid = []byte(genXid(r, true))
 		case 1:
@@ -418,6 +465,7 @@ func Run(args map[string]string) {
 		scs = append(scs, enumScenarios()...)
 		scs = append(scs, enumReuse()...)
 		scs = append(scs, enumPool()...)
+		scs = append(scs, enumLongXid()...)
 		rc := r.Fork(1)
 		for i := 0; i < n; i++ {
 			scs = append(scs, genScenario(rc, "clean"))
